@@ -84,6 +84,11 @@ def dut_crash_verdict(ex):
     repo = os.path.realpath(env.REPO) + os.sep
     verif = os.path.realpath(env.VERIF) + os.sep
     frames = traceback.extract_tb(ex.__traceback__)
+    if frames and os.path.realpath(frames[-1].filename).startswith(repo) and \
+            isinstance(ex, (AssertionError, ValueError, NotImplementedError)) or type(ex).__name__ == "SoCError":
+        # raised by a statement of the code under test itself (assert / raise ValueError / SoCError): a deliberate refusal of the
+        # configuration, which no property forbids - the case is outside the premise, not a crash
+        return skip("refused by the code under test: %s" % type(ex).__name__, detail=str(ex)[:200])
     for fr in reversed(frames):
         fn = os.path.realpath(fr.filename)
         if "site-packages" in fn or fn.startswith(os.path.realpath(os.path.dirname(os.__file__)) + os.sep):
